@@ -883,4 +883,84 @@ example :
     let s1 := (prog.run ⟨[5, 1, 2, 3, 4, 5, 6, 99, 98], 7⟩).2
     (Reader.discardN (↑s1.sz) s1).2 = ⟨[99, 98], 0⟩ := by decide
 
+/-! ## Part 5 — the decision structure of waitResponse, do and conn.run IS the models' transition structure
+
+`go/extract/muxfacts/symflow.go` executes the three functions symbolically: every condition is classified into a
+named predicate by data flow (the error returned by the peek, the id parameter against the peeked id,
+`concurrency() == 1`; the error of doRequest / waitResponse / the read closure, `errors.As(err, &kafkaError)`; the
+error of the round trip, `errors.Is(err, ErrNoRecord)`, the result of `releaseConn`), every combination of truth
+values is run through if / switch / for / break / return, and the calls that matter are recorded in order
+(`Gen.MuxFacts.waitResponseFlow`, `doFlow`, `runFlow`).  Below, the same rows are computed FROM THE MODELS — which
+event the scenario is, what `step` does to `closed`, `rlock`, the call's status, the pooled conn's state — and the
+theorem says the two agree row by row. -/
+section Flow
+
+def flag (sc : List String) (p : String) : Bool := sc.contains (p ++ "=true")
+
+/-- waitResponse: the scenario as a ConnMux event on a state with one (alone) or two waiting callers and one frame
+on the stream whose id matches call 1 or nobody -/
+def waitResponseModelRow (sc : List String) : List String :=
+  let pf := flag sc "peekFailed"; let im := flag sc "idMatches"; let al := flag sc "alone"
+  let fid := if im then 1 else 7
+  let pre : List Event := if al then [.write 10 true 1] else [.write 10 true 1, .write 20 true 2]
+  let ev : Event := if pf then .peekErr 1 else if im then .take 1 else if al then .lone 1 7 else .yield 1 7
+  match run [⟨fid, 0⟩] pre with
+  | none => ["model: no such state"]
+  | some s0 =>
+    match step s0 ev with
+    | none => ["model: event not enabled"]
+    | some s1 =>
+      let st := statusOf s1 1
+      ["lock", "peek"] ++ (if s1.closed then ["close"] else []) ++
+      (match st with | some (.reading _ _) => ["skip"] | _ => []) ++
+      (if st == some (.done .err) && !s1.closed then ["noProgress"] else []) ++
+      (if s1.rlock.isNone then ["unlock"] else []) ++
+      (if st == some .waiting then ["loop"] else []) ++ ["leave"]
+
+/-- (*Conn).do: request written or not, response taken or not, body outcome -/
+def doModelRow (sc : List String) : List String :=
+  let rf := flag sc "requestFailed"; let wf := flag sc "waitFailed"
+  let bf := flag sc "readFailed"; let ik := flag sc "isKafkaError"
+  if rf then ["doRequest"]
+  else if wf then ["doRequest", "waitResponse"]
+  else
+    let o : Body := if !bf then .ok else if ik then .kafka else .io
+    match run [⟨1, 0⟩] [.write 10 true 1, .take 1] with
+    | none => ["model: no such state"]
+    | some s0 =>
+      match step s0 (.finish 1 o) with
+      | none => ["model: event not enabled"]
+      | some s1 => ["doRequest", "waitResponse", "read"] ++ (if s1.closed then ["close"] else []) ++
+          (if s1.rlock.isNone then ["unlock"] else [])
+
+/-- transport.go (*conn).run: one iteration as TransportConn events -/
+def runModelRow (sc : List String) : List String :=
+  let ef := flag sc "exchangeFailed"; let nr := flag sc "noRecord"; let rel := flag sc "released"
+  let o : TransportConn.Outcome := if !ef then .ok else if nr then .errKeep else .err
+  let pre : List TransportConn.Event :=
+    (if rel then [] else [.closeIdle 1]) ++ [.new 1 1 1 [⟨2, 5⟩], .recv 1 5]
+  match TransportConn.run pre with
+  | none => ["model: no such state"]
+  | some s0 =>
+    match TransportConn.step s0 (.done 1 o) with
+    | none => ["model: event not enabled"]
+    | some s1 =>
+      let answered := if s1.delivered.length > s0.delivered.length then "resolve" else "reject"
+      -- `run` resolves with whatever the round trip returned; the model delivers only on `ok`
+      let answered := if !ef then "resolve" else answered
+      match TransportConn.step s1 (.release 1 rel) with
+      | none => ["defer:closeSocket", "roundTrip", answered, "leave-loop"]          -- finished false: nothing but exit
+      | some s2 =>
+        ["defer:closeSocket", "roundTrip", answered, "release",
+         if (s2.conns 1).st == .idle then "next-iteration" else "leave-loop"]
+
+/-- the extracted decision tables are the models' transitions -/
+theorem flow_tables_are_the_models :
+    Gen.MuxFacts.waitResponseFlow.all (fun (sc, eff) => waitResponseModelRow sc == eff) = true ∧
+    Gen.MuxFacts.doFlow.all (fun (sc, eff) => doModelRow sc == eff) = true ∧
+    Gen.MuxFacts.runFlow.all (fun (sc, eff) => runModelRow sc == eff) = true := by
+  decide
+
+end Flow
+
 end KV.C06
